@@ -12,6 +12,7 @@ V: two recorded traces, executed serially inside each of several harness
    allocation <= AllocBaseKiB + AllocPerByte*len(input), result in the
    function's result classes, grammar must-reject inputs rejected."""
 import vlib
+from checks import ages_common as ag
 from checks import c04
 
 
@@ -51,7 +52,9 @@ def run(ctx):
         k = c.get("fn") or (c["op"] + "/" + c["m"])
         kinds[k] = kinds.get(k, 0) + 1
     distinct = len({vlib.json.dumps(c, sort_keys=True) for c in cases})
+    an, acases = ag.run(ctx, ['attester', 'batchissuer-ff', 'batchissuer-00'])   # Ages.tla: every schedule of phases on one long-lived object, each phase scaled to n operations
     return ctx.finish({
+        **ag.coverage(an, acases),
         "traces_validated_against_impl": n1 + n2,
         "evaluations": len(cases),
         "distinct_nontrivial": distinct,
@@ -71,5 +74,7 @@ def run(ctx):
 
 
 def replay(ctx, path):
+    if vlib.json.load(open(path)).get("family") == "ages":
+        return ag.replay(ctx, path)
     obj = vlib.json.load(open(path))
     return ctx.replay_case(path, obj["family"], "Trace_Codec", cfg="Trace_Robust.cfg")
